@@ -366,6 +366,55 @@ func harnesses(r *fw.Run) []fw.HarnessSpec {
 		c.Outcome(out)
 	})
 
+	// the same sharing pattern made of cells that announce an exotic type (pruned branch / library / unknown type) and
+	// still carry references: the parser does not have to accept them, but whatever it returns is hashed, printed and
+	// re-serialised in time proportional to the bag, not to the tree it unfolds to
+	add("fork-bombs-of-exotic-cells", 0, 8, func(c *enum.Ctx) {
+		n := []int{6, 24, 40}[c.ChooseFree(3)]
+		f := 2 + c.ChooseFree(3)
+		typ := []byte{1, 2, 9}[c.ChooseFree(3)]
+		mixed := c.ChooseFree(2) == 1 // every second cell is an ordinary one
+		var data []byte
+		for i := 0; i < n-1; i++ {
+			special := !mixed || i%2 == 0
+			var body []byte
+			d1 := byte(f)
+			if special {
+				d1 |= 8
+				switch typ {
+				case 1:
+					body = make([]byte, 36)
+					body[0], body[1] = 1, 1
+					d1 |= 32
+				case 2:
+					body = make([]byte, 33)
+					body[0] = 2
+				default:
+					body = []byte{typ, byte(i)}
+				}
+				if len(body) > 2 {
+					body[2] = byte(i) // distinct cells
+				}
+			} else {
+				body = []byte{0x55, byte(i)}
+			}
+			data = append(data, d1, byte(2*len(body)))
+			data = append(data, body...)
+			for j := 0; j < f; j++ {
+				data = append(data, byte(i+1))
+			}
+		}
+		data = append(data, 0, 2, 0xA5) // the leaf
+		b := []byte{0xb5, 0xee, 0x9c, 0x72, 1, 2, byte(n), 1, 0}
+		b = append(b, put(uint64(len(data)), 2)...)
+		b = append(b, 0)
+		b = append(b, data...)
+		c.Case(b, true)
+		c.Sample(map[string]any{"cells": n, "fanout": f, "exotic_type": typ, "every_second_ordinary": mixed, "bytes": len(b)})
+		c.Label("exotic fork bomb: %d cells of type %d (mixed=%v), each referencing the next %d times (%d bytes)", n, typ, mixed, f, len(b))
+		c.Outcome(probe(c, b, "exotic-fork", false))
+	})
+
 	// exotic cells of every announced length: a pruned branch cell with every level mask 1..7 and every data length up to
 	// its full size + 3 (also merkle proof / update and library cells of every length), as the root, under an ordinary
 	// parent whose mask asks for the child's higher levels, under a merkle proof parent, and two levels down; the parser
